@@ -19,6 +19,9 @@
 //	ownership-metadata-missing   a manifest resource the op created, patched or replaced lacks
 //	                             app.kubernetes.io/managed-by=Helm or the meta.helm.sh/release-name /
 //	                             release-namespace annotations of this release
+//	manifest-names-unowned-object  after an install/upgrade that succeeded without take-ownership, a
+//	                             live object named by the new revision's manifest (ANY of them, written
+//	                             by the op or not) lacks this release's ownership metadata
 //	delete-of-unnamed-object     a successful DELETE whose target is named in no manifest or hook of
 //	                             any revision of the release operated on
 //	delete-of-foreign-release-record  a storage delete of a record that is not this release's
@@ -228,6 +231,7 @@ func post(a *core.Agg) string {
 	need("hist_ops_monitored", 300)
 	need("mutation_pre_owners_checked", 1000)
 	need("race_foreign_objects_checked", 40)
+	need("manifest_named_objects_ownership_checked", 1000)
 	need("placements_with_explicit_other_namespace", 200)
 	if len(msgs) > 0 {
 		return "monitors observed too little: " + strings.Join(msgs, "; ")
@@ -528,12 +532,40 @@ func runPlace(res *core.Result, d caseData, verbose bool) {
 			}
 			if r.Err == nil {
 				checkMetadata(res, events, s1, l1, scenario, detail)
+				if !takeOwn {
+					checkManifestOwnership(res, s1, l1, scenario, detail)
+				}
 			}
 			checkDeletes(res, events, nt.Snapshot(), scenario, detail)
 			checkForeignMutations(res, events, baseKeys(l0, op.Kind), nt.HookSnapshot(), takeOwn, scenario, detail)
 			if res.Sample == nil && len(offenders) > 0 {
 				res.Sample = map[string]any{"mode": "place", "driver": d.Driver, "scenario": scenario, "take_ownership": takeOwn, "resources": describe(), "expected": map[bool]string{true: "refuse", false: "accept"}[expectRefuse], "observed_error": r.ErrString(), "requests_of_op": len(events)}
 			}
+		}
+	}
+}
+
+// checkManifestOwnership: after an install/upgrade that reported success without take-ownership,
+// EVERY live object the new revision's manifest names carries this release's ownership metadata
+// (helm either created/updated it, stamping it, or had to refuse because it existed unowned).
+func checkManifestOwnership(res *core.Result, s1 map[string]string, l1 []env.Rec, opc string, detail func() string) {
+	top := ref.TopRec(l1)
+	if top == nil {
+		return
+	}
+	docs, _ := ref.ParseManifest(top.Manifest, ns)
+	for _, d := range docs {
+		live := ref.DecodeObj(s1[d.Key])
+		if d.Key == "" || live == nil {
+			continue
+		}
+		res.Stat("manifest_named_objects_ownership_checked", 1)
+		if p := ref.OwnershipProblems(live, rel, ns); len(p) > 0 {
+			kc := "typed kind"
+			if !d.Typed() {
+				kc = "custom kind"
+			}
+			res.Add("manifest-names-unowned-object", opc+" · "+kc, "the op succeeded without take-ownership and the manifest of revision %d names %s, but the live object is not this release's: %s | %s", top.Revision, d, strings.Join(p, "; "), detail())
 		}
 	}
 }
@@ -723,6 +755,9 @@ func runHist(res *core.Result, d caseData, verbose bool) {
 		checkForeignMutations(res, o.Events, baseKeys(o.L0, opc), o.NamedHooks, o.Step.Op.TakeOwnership, class, detail)
 		if o.Success() && opc != "uninstall" {
 			checkMetadata(res, o.Events, o.S1, o.L1, "hist: "+opc, detail)
+			if opc != "rollback" && !o.Step.Op.TakeOwnership {
+				checkManifestOwnership(res, o.S1, o.L1, "hist: "+opc, detail)
+			}
 		}
 		// the second release's records and objects must survive every op
 		if len(o.OtherL1) != len(o.OtherL0) {
@@ -900,6 +935,34 @@ func runRace(res *core.Result, d caseData, verbose bool) {
 		}
 		checkDeletes(res, events, nt.Snapshot(), scenario, detail)
 		checkForeignMutations(res, events, baseKeys(l0, op.Kind), nt.HookSnapshot(), false, scenario, detail)
+		if r.Err == nil && op.Kind != "rollback" {
+			checkManifestOwnership(res, w.Sim.Snapshot(), l1, scenario, detail)
+		}
+		// follow-up uninstall under the same monitors: what happens to the planted object afterwards
+		stillThere := planted != "" && w.Sim.Get(planted) != nil
+		ur := w.Exec("op-uninstall", rel, env.Op{Kind: "uninstall"}, nil)
+		res.Evals++
+		l2, _ := w.Ledger(rel)
+		nt.Add(l2)
+		uev := w.Sim.Done("op-uninstall")
+		udetail := func() string {
+			return detail() + fmt.Sprintf(" | follow-up uninstall err=%q ledger after [%s]", ur.ErrString(), env.LedgerString(l2))
+		}
+		checkDeletes(res, uev, nt.Snapshot(), scenario+", follow-up uninstall", udetail)
+		checkForeignMutations(res, uev, baseKeys(l1, "uninstall"), nt.HookSnapshot(), false, scenario+", follow-up uninstall", udetail)
+		res.Stat("race_followup_uninstalls", 1)
+		if cl != clAbsent && cl != clOwned && stillThere && w.Sim.Get(planted) == nil {
+			// by the letter of the property this is allowed (the object is named in the manifest of the
+			// revision being uninstalled); recorded to make the consequence visible in the evidence
+			if r.Err == nil {
+				res.Stat("race_foreign_object_deleted_by_uninstall_after_successful_op", 1)
+			} else {
+				res.Stat("race_foreign_object_deleted_by_uninstall_after_failed_op", 1)
+			}
+		}
+		if verbose {
+			fmt.Printf("   follow-up uninstall: err=%q, planted object still present: %v\n", ur.ErrString(), planted != "" && w.Sim.Get(planted) != nil)
+		}
 		res.Key("race|%s|%s|%s", scenario, classNames[cl], verdict)
 		if res.Sample == nil && cl != clAbsent && cl != clOwned {
 			res.Sample = map[string]any{"mode": "race", "driver": d.Driver, "scenario": scenario, "object": sl.Kind + "/" + slotName(s), "planted_as": classNames[cl], "observed_error": r.ErrString(), "requests_of_op": len(events)}
